@@ -131,3 +131,46 @@ func symxC18C() {
 	b.cancel()
 	rt.Quiesce()
 }
+
+// symxC18D: valid packet sequences of one client racing the delivery side. The log consumer polls an
+// idle log every 100 ms (the harness holds it between two polls), so what the client sends right
+// after its PUBACK - UNSUBSCRIBE, DISCONNECT, a dropped connection - is handled before the stored message is
+// written out; whichever it is, delivery to other clients goes on.
+func symxC18D() {
+	b := symxNewBroker(1, 1)
+	b.log.resume = make(chan struct{})
+	p := b.start(nil)
+	f := p.front(&symxAuth{mountPoint: "m", ids: []string{"x1", "x2"}})
+	c := symxNewConn()
+	rt.Assert(f.connect(c, symxConnectBytes("cid", 30, "", nil, nil, 0, false)) == nil, "C18.connect_accepted")
+	rt.Quiesce()
+	symxTick()
+	c.feed(symxSubscribeBytes(1, "q", byte(rt.Int("sub_qos", 0, 2))))
+	rt.Quiesce()
+	symxTick()
+	c.feed(symxPublishBytes("q", []byte("p"), 1, 2, false))
+	rt.Quiesce()
+	rt.Assert(symxCount(c.written(), packet.PUBACK) == 1, "C18.publish_acknowledged")
+	then := rt.Int("then", 0, 3)
+	symxTick()
+	switch then {
+	case 0:
+		c.feed(symxFrame(0xA2, append([]byte{0, 4}, symxLP([]byte("q"))...)))
+	case 1:
+		c.feed(symxDisconnect())
+	case 2:
+		c.feedEOF()
+	}
+	rt.Quiesce()
+	close(b.log.resume)
+	rt.Quiesce()
+	symxPoolRetryWait(2)
+	rt.Cover(then == 0, "C18.stored_message_finds_no_recipient_left")
+	rt.Assert(symxRoundTrip(p, "d"), "C18.other_clients_unaffected")
+	if then == 3 {
+		rt.Assert(len(symxPublishes(c.written())) >= 1, "C18.own_message_delivered")
+	}
+	b.cancel()
+	c.Close()
+	rt.Quiesce()
+}
